@@ -761,3 +761,11 @@ proof fn lemma_sanitise_bits(ub: u32, x: u32, c: u8)
     assert((ub >> 8 == x >> 8 && (ub ^ x) as u8 == c) ==> x == ub ^ (c as u32)) by(bit_vector);
     assert(((ub ^ (ub ^ (c as u32))) as u8) == c) by(bit_vector);
 }
+
+proof fn lemma_opos_zero(s: State)
+    requires s.opos_ch.0 == 0,
+    ensures st_opos(s) == 0, st_check(s) == 0,
+{
+    assert(0u32 >> 8 == 0u32) by(bit_vector);
+    assert(0u32 & 0xff == 0u32) by(bit_vector);
+}
